@@ -9,3 +9,5 @@ import PyIkev2.Props.C11
 #print axioms PyIkev2.Props.C11.c11_response_covers_offered_types
 #print axioms PyIkev2.Props.C11.c11_invalid_ke_names_chosen
 #print axioms PyIkev2.Props.C11.c11_retry_only_within_offer
+#print axioms PyIkev2.Props.C11.c11_concrete_responder_suite_within_both
+#print axioms PyIkev2.Props.C11.c11_concrete_initiator_suite_from_offer
